@@ -20,6 +20,17 @@ Theorem stale_threshold_exact : forall m now pms, 0 <= pms ->
 Proof. exact stale_time_iff. Qed.
 Print Assumptions stale_threshold_exact.
 
+(* IsStale's decision on what it read: "stale" requires a successful listing and EVERY listed file readable and at
+   least 2*period+1ms old (for an empty listing: the directory itself).  An unreadable sign of life (failed stat,
+   failed listing) never yields "stale"; one fresh file among several keeps the lock live. *)
+Theorem stale_requires_every_sign_old : forall v now pms, 0 <= pms ->
+  is_stale_view v now (pms * ms) = true ->
+  (v_ls v = Some [] /\ exists d, v_dir v = Some d /\ (2 * pms + 1) * ms <= now - d) \/
+  (exists fs, v_ls v = Some fs /\ fs <> [] /\
+              Forall (fun s => exists m, s = Some m /\ (2 * pms + 1) * ms <= now - m) fs).
+Proof. exact stale_view_l. Qed.
+Print Assumptions stale_requires_every_sign_old.
+
 (* First sentence of the property.  Whatever the latencies, whatever the hold duration, whether the holder is
    alive or died after any of its operations (k arbitrary), for a non-atomic IsStale call:
    if it answers "stale", then EVERY sign of life that had landed when the call listed the directory was
